@@ -22,11 +22,22 @@ type recWriter struct {
 	failAt int // 1-based index of the call that fails (0 = never)
 	err    error
 	n      int
+	// failMode: how the failing call answers: 0 nothing written, 1 half of the bytes taken, 2 all bytes taken and then
+	// the error (a writer that writes and then fails to sync / to pass the data on)
+	failMode int
 }
 
 func (w *recWriter) Write(p []byte) (int, error) {
 	w.n++
 	if w.failAt != 0 && w.n == w.failAt {
+		switch w.failMode {
+		case 1:
+			w.calls = append(w.calls, append([]byte(nil), p[:len(p)/2]...))
+			return len(p) / 2, w.err
+		case 2:
+			w.calls = append(w.calls, append([]byte(nil), p...))
+			return len(p), w.err
+		}
 		return 0, w.err
 	}
 	w.calls = append(w.calls, append([]byte(nil), p...))
